@@ -45,6 +45,15 @@ def program(case):
         if op == "next":
             lines.append(f"say({v}.try.next.A)")
             expect.append((f"{v}.next", f"out:[{num(r[1])}, nil]" if r[0] == "val" else ERR if r[0] == "err" else "out:[nil, <err StopIterErr: iter stopped>]"))
+        elif op == "zip":          # a list chain whose function asks the other variable for its next value; observed through try (the other one may stop first)
+            w = "y" if v == "x" else "x"
+            lines.append(f"say(nil.try.{{|u| {v}@{{|e| [e, {w}.next]}}}}.A)")
+            if r[0] == "list":
+                flat = r[1]
+                val = "[[" + ", ".join(f"[{num(flat[k])}, {num(flat[k + 1])}]" for k in range(0, len(flat), 2)) + "], nil]"
+            else:
+                val = ERR[4:] if r[0] == "err" else "[nil, <err StopIterErr: iter stopped>]"
+            expect.append((f"{v}@[e, {w}.next]", "out:" + val))
         elif body == "raisingrecur" and op in ("A", "list", "reduce"):     # a walk may raise: observed through try
             call = {"A": f"{v}.A", "list": f"{v}@{{|e| e * 10}}", "reduce": f"{v}$(100)+"}[op]
             lines.append(f"say(nil.try.{{|u| {call}}}.A)")
@@ -113,12 +122,12 @@ def run():
             ck.reject(f"C14:{c['body']}:aborted", f"history program ended with {o['end']} after {len(ev)} observations", {"src": reqs[i]["src"], "observed": [ev, o["end"]]})
             continue
         kinds = {e["op"] for e in c["log"]}
-        if "next" in kinds and kinds & {"copy", "alias", "newfrom", "new", "A", "list", "reduce"}:
+        if "next" in kinds and kinds & {"copy", "alias", "newfrom", "new", "A", "list", "reduce", "zip"}:
             nontrivial += 1
         for k, ((what, want), got) in enumerate(zip(exps[i], ev)):
             comparisons += 1
             if got != want:
-                before = "+".join(e["op"] for e in c["log"][:[j for j, e in enumerate(c["log"]) if e["op"] in ("next", "A", "list", "reduce")][k]])
+                before = "+".join(e["op"] for e in c["log"][:[j for j, e in enumerate(c["log"]) if e["op"] in ("next", "A", "list", "reduce", "zip")][k]])
                 sig = f"C14:{c['body']}:{what.split('.')[-1].lstrip('xy')}:after={'+'.join(sorted(set(before.split('+')))) or '-'}"
                 if c["body"] == "yieldsnil" and what.endswith(".A") and got == want.replace("nil, ", "").replace(", nil", "").replace("[nil]", "[]"):
                     sig = "C14:A-drops-yielded-nil"          # the only difference: the nil values that next returns are missing from A
